@@ -33,11 +33,13 @@ func main() {
 		Rule: "one real martian.Proxy (no MITM) per case, CONNECT tunnels over in-memory pipes (proxy-side read segmentation dictated by the harness) and loopback TCP, " +
 			"direct and via a harness downstream proxy; offset-stamped streams in both directions at once (early data coalesced with / split around the CONNECT head, " +
 			"target bytes coalesced with the downstream proxy's 200 head, ping-pong messages, bulk 0 B..1 MiB quick / 8 MiB thorough with PRNG chunking and pauses); " +
-			"one end closes (full or half close) before/during/after the peer's stream. A class is route x transport x early-data bucket x observed split x " +
+			"one end closes (full or half close) before/during/after the peer's stream; on TCP also abortive closes (SO_LINGER 0, close with unread input) while the peer sits idle; " +
+			"and a swarm family: 4-16 concurrent tunnels x 3-5 rounds through one proxy and one downstream proxy whose targets speak first in the same write as the 200 head, optional PRNG-delayed response modifier. A class is route x transport x early-data bucket x observed split x " +
 			"who closed first x close mode x observed close timing x size bucket, tallied only after the oracle ran on the case; plus unreachable-target classes",
 		Assumptions: []string{
 			"liveness clauses (bytes delivered while the tunnel is open, EOF propagation, release) are decided by quiescence of all martian goroutines with the proxy timeout at 10 min; per process only the first stuck wait of a signature uses the full window (5 s grace + 6 samples), later ones of the same signature shorter windows (4 samples/0.6 s, then 3 samples/0.1 s) and are only counted; a replay of a single case always uses the full window",
 			"an end that closes while the peer is still streaming uses half-close on TCP (a full close with unread data is a TCP reset, after which delivery of its own bytes is not guaranteed by TCP itself); full close at any time is exercised on the in-memory transport",
+			"after an abortive close (reset) the peer must observe end-of-stream as EOF or reset and both connections must be released; completeness of the bytes sent before the close is demanded for orderly closes only",
 			"bytes the peer sends after an end's half-close are only checked to be an in-order prefix; their complete delivery is recorded, not demanded",
 			"a downstream proxy answering 502 itself is not exercised (the statement's 502+Warning clause is checked for targets / downstream proxies that cannot be dialled)",
 		},
